@@ -11,6 +11,7 @@ fuel loses no path.
 import WnVerif.Lemmas.Paths
 import WnVerif.Lemmas.Reach
 import WnVerif.Lemmas.ListAux
+import WnVerif.Lemmas.Acyclic
 namespace WnVerif.Props.C13
 open WnVerif.Graph
 
@@ -203,6 +204,134 @@ theorem C13_pos_merge (n : Nat) (pos : Nat → String) (x : Nat) :
   · rcases h.2 with h' | h' <;> simp [h.1, h']
   · rcases h with h | h <;> exact ⟨h.1, by simp [h.2]⟩
   · rcases h.2 with h' | h' <;> simp [h.1, h']
+
+/-! ### taxonomy_depth on acyclic graphs: the `seen` shortcut is sound -/
+
+/-- the state of the loop of `taxonomy_depth` after the synsets `done`: the depth bounds the longest
+chain of every synset handled so far, every seen synset lies strictly below it, and the depth is
+attained (or still 0) -/
+def DepthInv (g : Adj) (n : Nat) (done : List Nat) (st : List Nat × Nat) : Prop :=
+  (∀ i ∈ done, L g n i ≤ st.2) ∧ (∀ h ∈ st.1, 1 + L g n h ≤ st.2) ∧ (st.2 = 0 ∨ ∃ i ∈ done, st.2 = L g n i)
+
+theorem depth_step (g : Adj) (n : Nat) (hr : InRange g n) (hac : Acyclic g) (done : List Nat) (st : List Nat × Nat)
+    (hinv : DepthInv g n done st) (i : Nat) :
+    DepthInv g n (done ++ [i])
+      (if (g i).all (fun h => st.1.contains h) then st
+       else if (relPaths g (n + 1) i).isEmpty then st
+       else ((relPaths g (n + 1) i).flatten ++ st.1, max st.2 (listMax ((relPaths g (n + 1) i).map List.length)))) := by
+  obtain ⟨h1, h2, h3⟩ := hinv
+  have mono3 : (st.2 = 0 ∨ ∃ j ∈ done, st.2 = L g n j) → (st.2 = 0 ∨ ∃ j ∈ done ++ [i], st.2 = L g n j) := by
+    rintro (h | ⟨j, hj, e⟩)
+    · exact Or.inl h
+    · exact Or.inr ⟨j, List.mem_append_left _ hj, e⟩
+  split
+  · -- skipped: every hypernym was seen
+    rename_i hall
+    refine ⟨?_, h2, mono3 h3⟩
+    intro j hj
+    rcases List.mem_append.mp hj with hj | hj
+    · exact h1 j hj
+    · simp at hj; subst hj
+      apply L_le_of_hypernyms g n hr hac
+      intro y hy
+      have : st.1.contains y = true := (List.all_eq_true.mp hall) y hy
+      exact h2 y (by simpa using this)
+  · split
+    · rename_i hemp
+      refine ⟨?_, h2, mono3 h3⟩
+      intro j hj
+      rcases List.mem_append.mp hj with hj | hj
+      · exact h1 j hj
+      · simp at hj; subst hj
+        have : relPaths g (n + 1) j = [] := by simpa using hemp
+        unfold L; rw [this]; exact Nat.zero_le _
+    · have hL : listMax ((relPaths g (n + 1) i).map List.length) = L g n i := rfl
+      rw [hL]
+      refine ⟨?_, ?_, ?_⟩
+      · intro j hj
+        rcases List.mem_append.mp hj with hj | hj
+        · exact Nat.le_trans (h1 j hj) (Nat.le_max_left _ _)
+        · simp at hj; subst hj; exact Nat.le_max_right _ _
+      · intro h hh
+        simp only [List.mem_append, List.mem_flatten] at hh
+        rcases hh with ⟨p, hp, hhp⟩ | hh
+        · obtain ⟨_, hc, _⟩ := (mem_relPaths_acyclic g n hr hac i p).mp hp
+          have := L_on_path g n hr hac p i hc h hhp
+          exact Nat.le_trans this (Nat.le_max_right _ _)
+        · exact Nat.le_trans (h2 h hh) (Nat.le_max_left _ _)
+      · right
+        rcases Nat.le_total st.2 (L g n i) with hle | hle
+        · exact ⟨i, by simp, by rw [Nat.max_eq_right hle]⟩
+        · rcases h3 with h0 | ⟨j, hj, e⟩
+          · have : L g n i = 0 := by omega
+            exact ⟨i, by simp, by rw [Nat.max_eq_left hle, h0, this]⟩
+          · exact ⟨j, List.mem_append_left _ hj, by rw [Nat.max_eq_left hle]; exact e⟩
+
+/-- **`taxonomy_depth` is the longest hypernym chain on every acyclic taxonomy** (any size); on
+cyclic graphs it is not (next theorem, known finding F14) -/
+theorem C13_depth_acyclic_partial (g : Adj) (n : Nat) (hr : InRange g n) (hac : Acyclic g) (pos : Nat → String) (p : String) :
+    taxonomyDepth g (n + 1) n pos p = longestChain g (n + 1) n pos p := by
+  unfold taxonomyDepth longestChain
+  have key : ∀ (S done : List Nat) (st : List Nat × Nat), DepthInv g n done st →
+      DepthInv g n (done ++ S) (S.foldl (fun (st : List Nat × Nat) (i : Nat) =>
+        let (seen, depth) := st
+        if (g i).all (fun h => seen.contains h) then st
+        else
+          let paths := relPaths g (n + 1) i
+          if paths.isEmpty then st
+          else (paths.flatten ++ seen, max depth (listMax (paths.map List.length)))) st) := by
+    intro S
+    induction S with
+    | nil => intro done st h; simpa using h
+    | cons i t ih =>
+      intro done st h
+      simp only [List.foldl_cons]
+      have := ih (done ++ [i]) _ (depth_step g n hr hac done st h i)
+      simpa [List.append_assoc] using this
+  obtain ⟨h1, _, h3⟩ := key (synsetsForPos n pos p) [] ([], 0) ⟨by simp, by simp, Or.inl rfl⟩
+  simp only [List.nil_append] at h1 h3
+  apply Nat.le_antisymm
+  · rcases h3 with h0 | ⟨i, hi, e⟩
+    · rw [h0]; exact Nat.zero_le _
+    · rw [e]
+      exact le_listMax _ _ (List.mem_map.mpr ⟨i, hi, rfl⟩)
+  · -- every element of the list is bounded by the computed depth
+    have : ∀ (l : List Nat) (b : Nat), (∀ x ∈ l, x ≤ b) → listMax l ≤ b := by
+      intro l b hb
+      by_cases hl : l = []
+      · subst hl; exact Nat.zero_le _
+      · exact hb _ (listMax_mem l hl)
+    apply this
+    intro x hx
+    obtain ⟨i, hi, rfl⟩ := List.mem_map.mp hx
+    exact h1 i hi
+
+/-- non-vacuity: a diamond with a tail (0→1, 0→2, 1→3, 2→3, 3→4) is acyclic and in range -/
+def diamondTail : Adj := fun i => match i with
+  | 0 => [1, 2]
+  | 1 => [3]
+  | 2 => [3]
+  | 3 => [4]
+  | _ => []
+
+example : Acyclic diamondTail ∧ InRange diamondTail 5 := by
+  refine ⟨⟨fun i => 10 - i, ?_⟩, ?_⟩
+  · intro x t ht
+    match x with
+    | 0 => simp [diamondTail] at ht; rcases ht with rfl | rfl <;> decide
+    | 1 => simp [diamondTail] at ht; subst ht; decide
+    | 2 => simp [diamondTail] at ht; subst ht; decide
+    | 3 => simp [diamondTail] at ht; subst ht; decide
+    | k + 4 => simp [diamondTail] at ht
+  · intro x t ht
+    match x with
+    | 0 => simp [diamondTail] at ht; rcases ht with rfl | rfl <;> decide
+    | 1 => simp [diamondTail] at ht; subst ht; decide
+    | 2 => simp [diamondTail] at ht; subst ht; decide
+    | 3 => simp [diamondTail] at ht; subst ht; decide
+    | k + 4 => simp [diamondTail] at ht
+
+example : taxonomyDepth diamondTail 6 5 (fun _ => "n") "n" = 3 := by decide
 
 /-! ### taxonomy_depth: the `seen` shortcut is wrong on cyclic graphs (known finding F14) -/
 
